@@ -181,9 +181,58 @@ func Div(a, b Term) Term { return app(SInt, "div", a, b) }
 func Mod(a, b Term) Term { return app(SInt, "mod", a, b) }
 func Neg(a Term) Term    { return app(SInt, "-", a) }
 
-func Select(a, i Term) Term { return app(elemSort(a.Sort), "select", a, i) }
+// Store-to-load forwarding: terms are plain text, so the structure of store
+// terms and of named definitions is kept in side tables (reset per VC; VCs are
+// built one at a time).
+type storeRec struct{ a, i, v Term }
+
+var (
+	storeTab = map[string]storeRec{}
+	defTab   = map[string]Term{}
+)
+
+func resetTermTables() {
+	storeTab = map[string]storeRec{}
+	defTab = map[string]Term{}
+}
+
+func resolveDef(t Term) Term {
+	for k := 0; k < 8; k++ {
+		d, ok := defTab[t.S]
+		if !ok {
+			return t
+		}
+		t = d
+	}
+	return t
+}
+
+func Select(a, i Term) Term {
+	r := resolveDef(a)
+	for k := 0; k < 6; k++ {
+		sr, ok := storeTab[r.S]
+		if !ok {
+			break
+		}
+		if sr.i.S == i.S {
+			return sr.v
+		}
+		// distinct integer literals: look through the store
+		if _, ok1 := smtIntValue(sr.i.S); ok1 {
+			if _, ok2 := smtIntValue(i.S); ok2 {
+				r = resolveDef(sr.a)
+				continue
+			}
+		}
+		break
+	}
+	return app(elemSort(a.Sort), "select", a, i)
+}
+
 func Store(a, i, v Term) Term {
-	return app(a.Sort, "store", a, i, v)
+	t := app(a.Sort, "store", a, i, v)
+	storeTab[t.S] = storeRec{a, i, v}
+	return t
 }
 
 func Forall(vars []string, body Term, pats ...Term) Term {
@@ -353,6 +402,7 @@ func (vc *VC) define(base string, t Term) Term {
 	}
 	c := vc.fresh(base, t.Sort)
 	vc.assert(Eq(c, t))
+	defTab[c.S] = t
 	return c
 }
 
@@ -650,6 +700,57 @@ func heapBases(f string) []string {
 // slicedQuery is like query but keeps only the assertions that mention no
 // heap, or a heap (transitively) related to the goal. Dropping hypotheses is
 // always sound; a goal not proved from the slice is retried on the full VC.
+func (vc *VC) sliceAsserts(mark int, goal Term) []string {
+	vc.mu.Lock()
+	for len(vc.bases) < mark {
+		vc.bases = append(vc.bases, heapBases(vc.asserts[len(vc.bases)]))
+	}
+	vc.mu.Unlock()
+	rel := map[string]bool{}
+	for _, b := range heapBases(goal.S) {
+		rel[b] = true
+	}
+	keep := make([]bool, mark)
+	for i := 0; i < mark; i++ {
+		if len(vc.bases[i]) == 0 {
+			keep[i] = true
+		}
+	}
+	changed := true
+	for changed {
+		changed = false
+		for i := 0; i < mark; i++ {
+			if keep[i] {
+				continue
+			}
+			hit := false
+			for _, b := range vc.bases[i] {
+				if rel[b] {
+					hit = true
+					break
+				}
+			}
+			if !hit {
+				continue
+			}
+			keep[i] = true
+			for _, b := range vc.bases[i] {
+				if !rel[b] {
+					rel[b] = true
+					changed = true
+				}
+			}
+		}
+	}
+	var out []string
+	for i := 0; i < mark; i++ {
+		if keep[i] {
+			out = append(out, vc.asserts[i])
+		}
+	}
+	return out
+}
+
 func (vc *VC) slicedQuery(mark int, goal Term) (string, int) {
 	vc.mu.Lock()
 	for len(vc.bases) < mark {
